@@ -137,6 +137,14 @@ def shard_main(pid, spec_path, out_path):
     wd = int(os.environ.get("VERIF_SHARD_WATCHDOG", "0"))
     if wd:
         faulthandler.dump_traceback_later(wd, exit=True)
+    try:
+        # a defect that makes the code under test allocate without end (a decoding loop that never terminates) must end as a MemoryError inside
+        # this shard - an exception the monitors see - not as a machine out of memory
+        import resource
+        lim = int(os.environ.get("VERIF_SHARD_MEMORY", str(6 << 30)))
+        resource.setrlimit(resource.RLIMIT_AS, (lim, lim))
+    except (ImportError, ValueError, OSError):
+        pass
     set_logging(os.environ.get("VERIF_DEBUG_LOG") == "1")
     env.ensure_deps()
     from . import reach
